@@ -34,12 +34,17 @@ URIS = ["u1", "u2", "u3", "https://eml.ecoinformatics.org/eml-2.2.0", "http://ww
 KEYS = ["id", "system", "scope", "xml:lang", "k", "", "é", "a\"b", "\\"]
 
 
+def fresh(x):
+    """a NEW str object with the same characters (never an interned literal / shared constant)"""
+    return None if x is None else "".join(list(x)) if len(x) != 1 else (x + "_")[:1]
+
+
 def rtext(rng, surr=False, maxlen=6):
     n = rng.choice([0, 1, 1, 2, 3, maxlen])
     parts = [rng.choice(POOL) for _ in range(n)]
     if surr and rng.random() < 0.5:
         parts.insert(rng.randrange(len(parts) + 1), rng.choice(SURR))
-    return "".join(parts)
+    return fresh("".join(parts))
 
 
 def ropt(rng, surr=False, p_none=0.4):
@@ -49,7 +54,7 @@ def ropt(rng, surr=False, p_none=0.4):
 def rdict(rng, surr=False):
     d = []
     for _ in range(rng.choice([0, 0, 1, 2, 3])):
-        k = rng.choice(KEYS) if rng.random() < 0.7 else rtext(rng, surr)
+        k = fresh(rng.choice(KEYS)) if rng.random() < 0.7 else rtext(rng, surr)
         if k not in [x for x, _ in d]:
             d.append((k, rtext(rng, surr)))
     return d
@@ -72,14 +77,16 @@ def gen_history_tree(rng, max_nodes, surr=False, closed_bias=0.85):
         fan.append(0)
         fan[p] += 1
     nodes = []
+    empty_id_at = rng.randrange(n) if rng.random() < 0.1 else -1
     for k in range(n):
-        nd = Node(rng.choice(NAMES) if rng.random() < 0.8 else rtext(rng, surr),
-                  id=("n%d" % k) + (rtext(rng, surr, 2) if rng.random() < 0.3 else ""),
-                  content=ropt(rng, surr))
+        nid = ("n%d" % k) + (rtext(rng, surr, 2) if rng.random() < 0.3 else "")
+        if k == empty_id_at:
+            nid = ""                      # a falsy but legal id
+        nd = Node(fresh(rng.choice(NAMES)) if rng.random() < 0.8 else rtext(rng, surr), id=fresh(nid), content=ropt(rng, surr))
         t = ropt(rng, surr, 0.6)
         if t is not None:
             nd.tail = t
-        p = None if rng.random() < 0.6 else rng.choice(PREFIXES)
+        p = None if rng.random() < 0.6 else fresh(rng.choice(PREFIXES))
         if p is not None:
             nd.prefix = p
         for a, v in rdict(rng, surr):
@@ -103,9 +110,22 @@ def gen_history_tree(rng, max_nodes, surr=False, closed_bias=0.85):
             hist.append(["attach", k, parent[k], idx])
         else:
             k = rng.randrange(n)
-            pfx = rng.choice(PREFIXES[:5]) if rng.random() < 0.85 else rng.choice(PREFIXES)
-            if rng.random() < 0.7:
-                uri = rng.choice(URIS[:3]) if rng.random() < 0.8 else rng.choice(URIS)
+            pfx = fresh(rng.choice(PREFIXES[:5]) if rng.random() < 0.85 else rng.choice(PREFIXES))
+            how = rng.random()
+            if how < 0.2:
+                # a legal direct edit through the exposed property: node.nsmap[prefix] = uri on a private copy, on the
+                # node and everything below it (keeps the precondition); small pool => alias prefixes (two prefixes,
+                # one URI) and "" URIs are common
+                uri = fresh(rng.choice(["u1", "u1", "u2", ""]))
+                todo = [nodes[k]]
+                while todo:
+                    x = todo.pop()
+                    x.nsmap = dict(x.nsmap)
+                    x.nsmap[pfx] = uri
+                    todo.extend(x.children)
+                hist.append(["nsmap[p]=u below", k, pfx, uri])
+            elif how < 0.75:
+                uri = fresh(rng.choice(URIS[:3]) if rng.random() < 0.7 else rng.choice(URIS))
                 nodes[k].add_namespace(pfx, uri)
                 hist.append(["declare", k, pfx, uri])
             else:
@@ -162,6 +182,13 @@ def legacy_view(sn):
     """the fields the legacy codec carries, from the property text"""
     return {"id": sn["id"], "name": sn["name"], "content": sn["content"], "tail": None, "prefix": None,
             "attrs": sn["attrs"], "extras": [], "nsmap": [], "kids": [legacy_view(k) for k in sn["kids"]]}
+
+
+def all_nodes(node):
+    out = [node]
+    for c in node.children:
+        out.extend(all_nodes(c))
+    return out
 
 
 def parents_ok(node, parent=None):
@@ -416,10 +443,27 @@ def statement_checks(ctx, root, hist, to_20210209, label):
         ctx.fail("C06:stateless", "to_json of the same unchanged tree gives a different text the second time",
                  {"kind": "impl-vs-statement", "tree": sn, "history": hist, "json": text})
     if re[0] == "ok":
-        re2 = run_impl(lambda: metapype_io.from_json(text))
-        if re2[0] != "ok" or NL.snapshot(re2[1]) != rsn:
-            ctx.fail("C06:stateless", "from_json of the same text gives a different tree the second time",
-                     {"kind": "impl-vs-statement", "tree": sn, "history": hist, "json": text})
+        # history: save, load, EDIT the loaded tree in place, load the same text again
+        first = re[1]
+        fnodes = all_nodes(first)
+        victim = fnodes[len(text) % len(fnodes)]
+        victim.content = "edited after load"
+        victim.add_attribute("zz-after-load", "1")
+        victim.nsmap = dict(victim.nsmap)
+        re2 = run_impl(lambda: metapype_io.from_json(fresh(text)))
+        re3 = run_impl(lambda: metapype_io.from_json(text))
+        for again in (re2, re3):
+            if again[0] != "ok" or NL.snapshot(again[1]) != rsn:
+                ctx.fail("C06:roundtrip" if closed else "C06:stateless",
+                         "loading the same JSON text a second time (after the first loaded tree was edited in place) does not give the saved tree: "
+                         + (again[1] if again[0] != "ok" else first_diff(rsn, NL.snapshot(again[1]))),
+                         {"kind": "impl-vs-statement", "tree": sn, "history": hist + [["load"], ["edit loaded tree", victim.id], ["load again"]], "json": text})
+            elif {id(x) for x in all_nodes(again[1])} & ({id(x) for x in fnodes} | {id(x) for x in all_nodes(root)}):
+                ctx.fail("C06:distinct", "a second load of the same JSON text shares node objects with an earlier tree",
+                         {"kind": "impl-vs-statement", "tree": sn, "history": hist + [["load"], ["load again"]], "json": text})
+            elif not parents_ok(again[1]):
+                ctx.fail("C06:parents", "parent links of a second load are not set to the containing node",
+                         {"kind": "impl-vs-statement", "tree": sn, "history": hist, "json": text})
     # ---- legacy codec
     ltext = mp_io.to_json(root)
     lobj = mp_io.objectify(root)
@@ -440,6 +484,11 @@ def statement_checks(ctx, root, hist, to_20210209, label):
                      {"kind": "impl-vs-statement", "tree": sn, "legacy_json": ltext})
         if mp_io.to_json(lre[1]) != ltext:
             ctx.fail("C06:legacy-reserialize", "legacy re-serialisation differs", {"kind": "impl-vs-statement", "tree": sn, "legacy_json": ltext})
+        lre[1].content = "edited after load"
+        lre2 = run_impl(lambda: mp_io.from_json(json.loads(ltext)))
+        if lre2[0] != "ok" or NL.snapshot(lre2[1]) != lv or lre2[1] is lre[1]:
+            ctx.fail("C06:legacy", "loading the same legacy document again (after the first loaded tree was edited) does not give the saved tree",
+                     {"kind": "impl-vs-statement", "tree": sn, "legacy_json": ltext, "expected": lv})
     else:
         rec["lloaded"] = lre
         ctx.fail("C06:legacy", f"legacy from_json(to_json(t)) raised {lre[1]}", {"kind": "impl-vs-statement", "tree": sn, "legacy_json": ltext})
@@ -483,8 +532,8 @@ def statement_checks(ctx, root, hist, to_20210209, label):
     esn = NL.snapshot(root)
     etext = metapype_io.to_json(root)
     eltext = mp_io.to_json(root)
-    fresh = NL.build(esn, attach=False)
-    if etext != metapype_io.to_json(fresh) or eltext != mp_io.to_json(fresh):
+    rebuilt = NL.build(esn, attach=False)
+    if etext != metapype_io.to_json(rebuilt) or eltext != mp_io.to_json(rebuilt):
         ctx.fail("C06:stateless", "after an in-place edit, to_json of the edited tree differs from to_json of a freshly built identical tree",
                  {"kind": "impl-vs-statement", "tree": sn, "history": hist, "edited_node": tgt.id, "edited_tree": esn, "json": etext})
     if ns_closed(esn):
@@ -631,6 +680,8 @@ def doc_cases(ctx, rng, recs, to_20210209, n):
                 representable = False
             else:
                 want_t = coq_result_tree(("ok", sn))
+                statement_checks(ctx, r[1], [["loaded from a mutated document", text[:200]]], to_20210209, "doc")
+                ctx.count("statement on a tree loaded from a mutated document")
         elif r[0] == "ok":
             want_j = coq_result_json(r)
         elif which in (0, 1):
@@ -678,6 +729,12 @@ def fixed_trees():
         n("r", nsmap=[("a", "u1"), ("b", "u2")], kids=[n("c", nsmap=[("b", "u2"), ("a", "u1")], kids=[n("g", nsmap=[("a", "u1"), ("b", "u2")])])]),
         # child rebinding a prefix, grandchild back
         n("r", nsmap=[("a", "u1")], kids=[n("c", nsmap=[("a", "u2"), ("b", "u3")], kids=[n("g", nsmap=[("b", "u3"), ("a", "u1")])])]),
+        # alias prefixes (two prefixes, one URI), "" URI, "" id
+        n("r", nsmap=[("a", "u1"), ("b", "u1"), ("", "u1")], kids=[n("", nsmap=[("a", "u1"), ("b", "u1"), ("", "u1"), ("c", "")],
+                                                                      kids=[n("g", nsmap=[("b", "u1"), ("a", "u1"), ("", ""), ("c", "")])])]),
+        n("r", nsmap=[("a", "")], kids=[n("c", nsmap=[("a", ""), ("b", "")])]),
+        # NOT closed, with an alias: the child lacks prefix a but binds the same URI under b
+        n("r", nsmap=[("a", "u1")], kids=[n("c", nsmap=[("b", "u1")])]),
         # NOT closed: child lacks the parent's prefix, grandchild binds it differently
         n("r", nsmap=[("a", "u1")], kids=[n("c", nsmap=[], kids=[n("g", nsmap=[("a", "u9")])])]),
         # NOT closed: child lacks one of two
@@ -705,8 +762,11 @@ def run(ctx):
     for sn in fixed_trees():
         NL.reset_store()
         root = NL.build(sn, attach=False)
-        _, _, rec = statement_checks(ctx, root, [["built-directly"]], to_20210209, "fixed")
+        _, fclosed, rec = statement_checks(ctx, root, [["built-directly"]], to_20210209, "fixed")
         recs.append(rec)
+        if not fclosed and rec["loaded"][0] == "ok":
+            NL.reset_store()
+            statement_checks(ctx, metapype_io.from_json(rec["text"]), [["built-directly"], ["to_json"], ["from_json"]], to_20210209, "loaded")
     # the shipped fixture
     data = os.path.join(common.REPO, "tests", "data", "eml.json")
     if os.path.exists(data):
@@ -714,6 +774,20 @@ def run(ctx):
         root = metapype_io.from_json(open(data, encoding="utf-8").read())
         _, closed, rec = statement_checks(ctx, root, [["tests/data/eml.json"]], to_20210209, "fixture")
         ctx.count("fixture eml.json")
+    # sizes past 256: many children, many attributes / extras / prefixes on one node
+    from metapype.model.node import Node
+    NL.reset_store()
+    wide = Node(fresh("wide"), id=fresh("w"))
+    for k in range(300):
+        wide.add_attribute(fresh("a%d" % k), fresh("v%d" % k))
+        wide.add_extras(fresh("e%d" % (299 - k)), fresh(""))
+    for k in range(300):
+        c = Node(fresh("kid"), id=fresh("w%d" % k), content=fresh(str(k)))
+        wide.add_child(c, index=None if k % 3 else 0)
+    for k in range(300):
+        c.add_namespace(fresh("p%d" % k), fresh("u%d" % (k % 7)))       # one node with 300 prefixes
+    statement_checks(ctx, wide, [["300 attributes, extras, prefixes and children"]], to_20210209, "wide")
+    ctx.count("wide tree (>256 items)")
     n_small = 1500 if thorough else 220
     n_big = 600 if thorough else 60
     n_corr = 900 if thorough else 150
@@ -726,6 +800,13 @@ def run(ctx):
         root, hist, _ = gen_history_tree(rng, 120 if big else rng.choice([1, 3, 6, 12, 20]), surr,
                                           closed_bias=0.9 if rng.random() < 0.7 else 0.0)
         sn, closed, rec = statement_checks(ctx, root, hist, to_20210209, "gen")
+        if not closed and rec["loaded"][0] == "ok":
+            # outside the precondition nothing is claimed about t — but what loading produced is a tree the statement
+            # speaks about, so every such run also goes through the statement
+            NL.reset_store()
+            root2 = metapype_io.from_json(rec["text"])
+            statement_checks(ctx, root2, hist + [["to_json"], ["from_json"]], to_20210209, "loaded")
+            ctx.count("statement on the reload of an ns-violating tree")
         if len(recs) < n_corr and not big and used + count_nodes(sn) <= budget_nodes:
             recs.append(rec)
             used += count_nodes(sn)
